@@ -80,3 +80,20 @@ Inductive fmt_doc : bytes -> list bof -> Prop :=
 | fd_bound t c rest bs its :
     raw_text t -> brace_free c -> csv_text c bs -> fmt_doc rest its ->
     fmt_doc (t ++ ch_lbrace :: c ++ ch_rbrace :: rest) (filler_of t ++ map Bound bs ++ its).
+
+(** what the documentation says about literal text, as one left-to-right pass *)
+Fixpoint render_spec (t : bytes) : bytes :=
+  match t with
+  | [] => []
+  | x :: r =>
+      match r with
+      | y :: r' =>
+          if (N.eqb x ch_lbrace) && (N.eqb y ch_lbrace) then ch_lbrace :: render_spec r'
+          else if (N.eqb x ch_rbrace) && (N.eqb y ch_rbrace) then ch_rbrace :: render_spec r'
+          else if (N.eqb x ch_backslash) && (N.eqb y ch_n) then LF :: render_spec r'
+          else if (N.eqb x ch_backslash) && (N.eqb y ch_t) then TAB :: render_spec r'
+          else x :: render_spec r
+      | [] => [x]
+      end
+  end.
+
